@@ -65,3 +65,16 @@ pub fn btree_retain_keys<V, F: Fn(u64) -> bool>(m: &mut BTreeMap<u64, V>, f: F)
 {
     m.retain(|k, _| f(*k))
 }
+
+// N7: `m.split_off(&key)`  -- std: "Splits the collection into two at the given key. Returns everything after the given key,
+// including the key"; what stays in `m` is everything strictly below it
+#[verifier::external_body]
+pub fn btree_split_off<V>(m: &mut BTreeMap<u64, V>, key: u64) -> (r: BTreeMap<u64, V>)
+    ensures
+        forall|k: u64| #[trigger] final(m)@.contains_key(k) == (old(m)@.contains_key(k) && k < key),
+        forall|k: u64| #[trigger] final(m)@.contains_key(k) ==> final(m)@[k] == old(m)@[k],
+        forall|k: u64| #[trigger] r@.contains_key(k) == (old(m)@.contains_key(k) && k >= key),
+        forall|k: u64| #[trigger] r@.contains_key(k) ==> r@[k] == old(m)@[k],
+{
+    m.split_off(&key)
+}
